@@ -80,7 +80,12 @@ func scanSpecDirs(dirs []string, scanFn scanSpecFunc) error {
 				if errors.Is(err, fs.ErrNotExist) {
 					return nil
 				}
-				return err
+				// A directory or Spec file we cannot stat must not end the
+				// scan of the remaining directories: report it and carry on.
+				if ext := filepath.Ext(path); path != dir && ext != ".json" && ext != ".yaml" {
+					return nil
+				}
+				return scanFn(path, priority, nil, err)
 			}
 			// first call from Walk is for dir itself, others we skip
 			if info.IsDir() {
